@@ -92,9 +92,12 @@ def run_property(prop, parts, tier, seed, repo, args):
         total = runner.run_batch(world_cls, part['profile'], tier, seed, runs, budget, args.workers,
                                  known_sigs=known_sigs)
         if total['errors']:
+            # an exception inside the checking machinery itself (not the library): the run is void, never a pass.
+            # A handful among tens of thousands of generated runs is reported and counted; more than that fails the check.
             for e in total['errors'][:3]:
-                print(f"HARNESS-ERROR run={e['run']} seed={e['seed']}\n{e['trace']}")
-            raise HarnessError(f"{len(total['errors'])} runs raised inside the checking machinery")
+                print(f"HARNESS-WARNING run={e['run']} seed={e['seed']} raised inside the checking machinery (run discarded)\n{e['trace']}")
+            if len(total['errors']) > max(5, total['runs'] // 500):
+                raise HarnessError(f"{len(total['errors'])} runs raised inside the checking machinery")
         # known findings that fired
         for sig, cnt in sorted(total['known_hits'].items()):
             k = runner.match_known(known, prop, sig)
@@ -173,7 +176,7 @@ def write_evidence(prop, tier, seed, ev_parts, wall, n_viol, known, printed_know
             'wall_s': round(t['wall'], 2), 'runs_per_hour': int(t['runs'] / max(t['wall'], 1e-9) * 3600),
             'distinct_states': len(t['states']), 'distinct_interleavings': len(t['inter']),
             'distinct_nontrivial_runs': len(t['digests_nontrivial']), 'simulated_time': t['sim_time'],
-            'stopped_on_wall_budget': t['stopped_early'], 'violations': pv,
+            'stopped_on_wall_budget': t['stopped_early'], 'violations': pv, 'runs_discarded_for_harness_exceptions': len(t['errors']),
             'components': COMPONENTS.get(part['world'], {}),
         })
     ev = {
